@@ -658,7 +658,17 @@ func (e *Exec) callBuiltin(th *Thread, b *ssa.Builtin, args []Value) Value {
 			}
 			out := dst
 			for _, x := range src {
+				inPlace := len(out) < cap(out)
 				out = append(out, copyVal(x))
+				if inPlace && e.race != nil {
+					// appended within the capacity: a write to a cell of the backing array that
+					// other slices of the same array (and their readers) share
+					pos := token.NoPos
+					if fr := th.top; fr != nil && fr.block != nil && fr.pc < len(fr.block.Instrs) {
+						pos = fr.block.Instrs[fr.pc].Pos()
+					}
+					e.race.access(e, th, &out[len(out)-1], true, pos)
+				}
 			}
 			return out
 		case string:
